@@ -56,6 +56,14 @@ func EndBlocker(ctx sdk.Context, k keeper.Keeper) {
 
 	// handler for the new request batch
 	newRequestBatchHandler := func(requestContextID tmbytes.HexBytes, requestContext types.RequestContext) {
+		// no batch beyond the repeated total, e.g. when restarted after the last batch expired while paused
+		if requestContext.State == types.RUNNING && requestContext.Repeated &&
+			requestContext.RepeatedTotal > 0 && int64(requestContext.BatchCounter) >= requestContext.RepeatedTotal {
+			k.CompleteServiceContext(ctx, requestContext, requestContextID)
+			k.DeleteNewRequestBatch(ctx, requestContextID, ctx.BlockHeight())
+			return
+		}
+
 		if requestContext.State == types.RUNNING {
 			providers, totalPrices, rawDenom, err := k.FilterServiceProviders(
 				ctx,
